@@ -87,6 +87,16 @@ Definition centry_tree (e : list relrec) : rtree := entry_from_relations fixed (
 (* Relations::from(vec![...]) *)
 Definition cfield_tree (f : lfield) : rtree := relations_from_entries (map centry_tree f).
 
+(* what RelationBuilder::build builds (Relation::new, then set_archqual, set_architectures,
+   add_profile per group): name[:qual][ (op ver)][ [archs]]( <profile group>)* *)
+Definition brel_tree (r : relrec) : rtree :=
+  Node RELATION (Tok IDENT (rr_name r) ::
+     (match rr_qual r with Some q => [archqual_node q] | None => [] end) ++
+     (match rr_ver r with Some (vc, ver) => [t_space; version_node vc ver] | None => [] end) ++
+     (match rr_archs r with Some a => [t_space; architectures_node a] | None => [] end) ++
+     flat_map (fun g => [t_space; profiles_node g]) (rr_profs r)).
+Definition bentry_tree (e : list relrec) : rtree := entry_from_relations fixed (map brel_tree e).
+
 Definition plain_entry (e : list relrec) : bool := forallb plain e.
 Definition plain_field (f : lfield) : bool := forallb plain_entry f.
 
@@ -94,9 +104,9 @@ Definition plain_field (f : lfield) : bool := forallb plain_entry f.
 (* operands are built with the constructors; every edit below the root goes through handles
    obtained from the current root right before it (entry register 0, relation register 0) *)
 Definition rel_spec (r : relrec) : relspec :=
-  match rr_qual r with
-  | None => RSNew (rr_name r) (rr_ver r)
-  | Some q => RSBuild (rr_name r) (rr_ver r) (Some q) (rr_archs r) (rr_profs r)
+  match rr_qual r, rr_archs r, rr_profs r with
+  | None, None, [] => RSNew (rr_name r) (rr_ver r)
+  | _, _, _ => RSBuild (rr_name r) (rr_ver r) (rr_qual r) (rr_archs r) (rr_profs r)
   end.
 Definition entry_spec (e : list relrec) : entryspec := ESFromVec (map rel_spec e).
 Definition compile (o : aop) : list op :=
